@@ -166,6 +166,8 @@ def run_shard(spec, ctx):
         ctx.case({"c": c})
         f = body(ctx, c)
         ctx.label("strict" if c["strict"] else "free")
+        if getattr(f, "followups", 0):
+            ctx.label("history-with-sends-from-inside-callbacks")
         if f.connection_lost:
             ctx.label("connection-closed")
         for k in classify(f, c):
